@@ -224,6 +224,5 @@ def view(case):
 def campaigns(tier: str) -> List[Campaign]:
     return [Campaign("counters", c14_case(), check, quick=400, thorough=20000, quick_shards=8,
                      required_classes={"launch_and_start_same_instant": 0.15, "multi_stream": 0.2, "zero_length_copy": 0.03,
-                                       "counter_file": 0.5, "shared_instant": 0.3, "multi_copy_type": 0.05,
-                                       "overlapping_copies_same_type_different_names": 0.02},
+                                       "counter_file": 0.5, "shared_instant": 0.3, "multi_copy_type": 0.05},
                      sample_view=view)]
